@@ -81,6 +81,8 @@ def usable(c):
     k = c["k"]
     if k == "crash":
         return False
+    if k == "unbinary" and "interpreter has crashed" in c.get("err", ""):
+        return False   # a panic inside the decoder (reported separately), not a verdict to compare
     if k in ("bits", "unbits", "base", "antibase", "bytes", "unbytes"):
         o = c["out"]
         if o == "non-integer":
@@ -169,6 +171,13 @@ def run(r):
         r.violation("unbinary/process-abort-on-box-count", "°binary aborts the whole process (%s) on the malformed encoding %s" % (c["stderr"], c["bytes"]),
                     {"bytes": c["bytes"], "status": c["status"], "stderr": c["stderr"], "count": len(crashes),
                      "program": "# Experimental!\n°binary [%s]" % " ".join(str(b) for b in c["bytes"])}, theorem=None)
+
+    panics = [c for c in cases if c["k"] == "unbinary" and "interpreter has crashed" in c.get("err", "")]
+    r.coverage["tie"]["decoder_panics"] = len(panics)
+    if panics:
+        c = min(panics, key=lambda x: len(x["bytes"]))
+        r.violation("unbinary/panic-on-malformed-shape", "°binary panics (\"The interpreter has crashed\") on a malformed encoding of %d bytes starting %s" % (len(c["bytes"]), c["bytes"][:16]),
+                    {"bytes": c["bytes"], "error": c["err"][:400], "count": len(panics)}, theorem=None)
 
     # ---------------- search: round trips on the real implementation, all codecs
     m = 300 if quick else 6000
